@@ -178,6 +178,14 @@ def delta_family(ck, rnd, tier, wd, trace, owner, scripts_by):
             if x["op"] == "scan":
                 x["op"] = "scanf"
         t = [x for x in t if x["op"] not in ("finish",) and not (x["op"] == "Crash" and x.get("why") == "header of B not accepted")]
+        # a failing system call during a round has to surface in a callback's return value
+        t2 = []; seen = 0
+        for x in t:
+            t2.append(x)
+            if x["op"] == "round":
+                tot = x.pop("firederrTotal", 0)
+                t2.append({"op": "roundfault", "firedErr": tot > 0, "anyErr": bool(x["anyErr"])})      # faults that fired during this round only
+        t = t2
         for x in t:
             trace.append(x); owner.append(cid)
         scripts_by[cid] = (s, sc.name, delta.replay_files(sc))
